@@ -6,3 +6,32 @@ from pyvc.values import *  # noqa
 REG.schema('Packet', module='packet', fields=dict(
     packet_type=INT, data=ANY, binary=BOOL, encode_cache=ANY))
 REG.schema('Payload', module='payload', fields=dict(packets=List(Ref('Packet'))))
+
+RecF = lambda **kw: Ty('recf', *sorted(kw.items()))     # noqa: E731  record-valued field
+
+REG.schema('Queue', fields=dict(items=List(ANY), unf=INT))
+REG.schema('BaseSocket', module='base_socket', fields=dict(
+    server=Ref('BaseServer'), sid=STR, queue=Ref('Queue'), last_ping=ANY, connected=BOOL,
+    upgrading=BOOL, upgraded=BOOL, closing=BOOL, closed=BOOL, session=ANY))
+REG.schema('Socket', module='socket', base='BaseSocket', fields=dict(server=Ref('Server')))
+REG.schema('AsyncSocket', module='async_socket', base='BaseSocket',
+           fields=dict(server=Ref('AsyncServer')))
+REG.schema('BaseServer', module='base_server', fields=dict(
+    ping_timeout=REAL, ping_interval=REAL, ping_interval_grace_period=REAL,
+    max_http_buffer_size=INT, allow_upgrades=BOOL, http_compression=BOOL,
+    compression_threshold=INT, cookie=ANY, cors_allowed_origins=ANY, cors_credentials=BOOL,
+    async_handlers=BOOL, sockets=Dict(STR, Ref('BaseSocket')),
+    handlers=Dict(STR, Opaque('Handler')), log_message_keys=Opaque('Set'),
+    start_service_task=BOOL, service_task_handle=ANY, service_task_event=ANY,
+    logger=Opaque('Logger'), async_mode=STR, transports=List(STR), sequence_number=INT,
+    _async=RecF(websocket=ANY, queue=Opaque('QueueClass'), queue_empty=Opaque('ExcClass'),
+                thread=Opaque('ThreadClass'), event=Opaque('EventClass'),
+                sleep=Opaque('SleepFn'), translate_request=Opaque('Fn'),
+                make_response=Opaque('Fn'))))
+REG.schema('Server', module='server', base='BaseServer',
+           fields=dict(sockets=Dict(STR, Ref('Socket'))))
+REG.schema('AsyncServer', module='async_server', base='BaseServer',
+           fields=dict(sockets=Dict(STR, Ref('AsyncSocket'))))
+
+# ghost state (DESIGN 3.1)
+REG.ghost('csprng', List(BYTES))       # byte strings obtained from secrets.token_bytes, in order
